@@ -62,14 +62,14 @@ Lemma bdec_S steps d b rest :
   bdec steps (S d) (b :: rest) =
   if isb 105 b then
     match find_split 101 rest with
-    | Some (num, after) => match py_int_of_bytes num with Some z => Ok (BInt z, after) | None => Err EDecode end
+    | Some (num, after) => match strict_int num with Some z => Ok (BInt z, after) | None => Err EDecode end
     | None => Err EDecode
     end
   else if isb 108 b then list_loop (bdec steps d) steps rest []
   else if isb 100 b then dict_loop (bdec steps d) steps rest []
   else match find_split 58 (b :: rest) with
        | Some (num, after) =>
-           match py_int_of_bytes num with
+           match strict_len num with
            | Some z => if (z <? 0)%Z then Err EDecode
                        else let (s, rest') := take_clamped (Z.to_N z) after in Ok (BStr s, rest')
            | None => Err EDecode
@@ -84,14 +84,14 @@ Proof.
   destruct cur as [|b r0]; [discriminate|]. rewrite bdec_S in H.
   destruct (isb 105 b).
   - destruct (find_split 101 r0) as [[num after]|] eqn:E; [|discriminate].
-    destruct (py_int_of_bytes num); [|discriminate]. inversion H; subst.
+    destruct (strict_int num); [|discriminate]. inversion H; subst.
     apply find_split_length in E. cbn [length]. lia.
   - destruct (isb 108 b).
     + apply (list_loop_progress _ (IH steps)) in H. cbn [length]. lia.
     + destruct (isb 100 b).
       * apply (dict_loop_progress _ (IH steps)) in H. cbn [length]. lia.
       * destruct (find_split 58 (b :: r0)) as [[num after]|] eqn:E; [|discriminate].
-        destruct (py_int_of_bytes num) as [z|]; [|discriminate].
+        destruct (strict_len num) as [z|]; [|discriminate].
         destruct (z <? 0)%Z; [discriminate|].
         destruct (take_clamped (Z.to_N z) after) as [s rest'] eqn:Et. inversion H; subst.
         apply find_split_length in E. apply take_clamped_length in Et. lia.
@@ -135,13 +135,13 @@ Proof.
   destruct data as [|b r0]; [cbn; discriminate|]. rewrite bdec_S. cbn [length] in Hs.
   destruct (isb 105 b).
   - destruct (find_split 101 r0) as [[num after]|]; [|discriminate].
-    destruct (py_int_of_bytes num); discriminate.
+    destruct (strict_int num); discriminate.
   - destruct (isb 108 b).
     + apply (list_loop_no_internal _ steps (bdec_progress d steps)); [intros cur Hc; apply IH; exact Hc | lia | lia].
     + destruct (isb 100 b).
       * apply (dict_loop_no_internal _ steps (bdec_progress d steps)); [intros cur Hc; apply IH; exact Hc | lia | lia].
       * destruct (find_split 58 (b :: r0)) as [[num after]|]; [|discriminate].
-        destruct (py_int_of_bytes num) as [z|]; [|discriminate].
+        destruct (strict_len num) as [z|]; [|discriminate].
         destruct (z <? 0)%Z; [discriminate|].
         destruct (take_clamped (Z.to_N z) after). discriminate.
 Qed.
@@ -151,7 +151,7 @@ Proof.
   unfold bdecode. destruct data as [|b r]; [discriminate|].
   pose proof (bdec_no_internal fuel (S (length (b :: r))) (b :: r) ltac:(lia)) as H.
   destruct (bdec (S (length (b :: r))) fuel (b :: r)) as [[v rest]|e].
-  - destruct v; discriminate.
+  - destruct v; try discriminate. destruct rest; discriminate.
   - intro E. inversion E; subst. apply H. reflexivity.
 Qed.
 
@@ -231,16 +231,16 @@ Proof.
   unfold bdecode. destruct data as [|b r]; [discriminate|].
   destruct fuel as [|f]; [cbn; discriminate|]. rewrite bdec_S.
   destruct (isb 105 b).
-  { destruct (find_split 101 r) as [[num after]|]; [|discriminate]. destruct (py_int_of_bytes num); discriminate. }
+  { destruct (find_split 101 r) as [[num after]|]; [|discriminate]. destruct (strict_int num); [destruct after|]; discriminate. }
   destruct (isb 108 b).
   { destruct (list_loop (bdec (S (length (b :: r))) f) (S (length (b :: r))) r []) as [[v rest]|e] eqn:E; [|discriminate].
-    apply list_loop_shape in E as [l ->]. discriminate. }
+    apply list_loop_shape in E as [l ->]. destruct rest; discriminate. }
   destruct (isb 100 b) eqn:Eb.
   { intros _. exists r. f_equal. unfold isb in Eb. apply N.eqb_eq in Eb.
     rewrite <- (byte_of_N_of_byte b). rewrite Eb. reflexivity. }
   destruct (find_split 58 (b :: r)) as [[num after]|]; [|discriminate].
-  destruct (py_int_of_bytes num) as [z|]; [|discriminate].
-  destruct (z <? 0)%Z; [discriminate|]. destruct (take_clamped (Z.to_N z) after). discriminate.
+  destruct (strict_len num) as [z|]; [|discriminate].
+  destruct (z <? 0)%Z; [discriminate|]. destruct (take_clamped (Z.to_N z) after) as [s0 r0]. destruct r0; discriminate.
 Qed.
 
 Theorem accepted_first_byte fuel data m : decode_datagram fuel data = inl m -> exists rest, data = c_d :: rest.
